@@ -29,6 +29,9 @@ RULE = ('Seeded random cases. mc: a float32 vector (size 1..257, rank 0..3, shap
         'clients of positive weight or a zero / constant leaf. Distinct by (family, shape or structure, class, levels, '
         'kind, clients, digest of the generated values).')
 RULE += (" Wave-4 addition: family 'reshaped' - one aggregator object over six rounds whose trees share the container structure but alternate leaf shapes (with a re-init in between); the bit increment is judged per round.")
+# Configuration shards (vmon.run): the cases of the plain shard with the given index are run once more in a process started
+# under an environment the library is supposed to be indifferent to.
+CONFIGS = {'quick': [{'name': 'threefry-nonpartitionable', 'env': {'JAX_THREEFRY_PARTITIONABLE': '0'}, 'shard': 0}], 'thorough': [{'name': 'threefry-nonpartitionable', 'env': {'JAX_THREEFRY_PARTITIONABLE': '0'}, 'shard': 0}, {'name': 'rbg-prng', 'env': {'JAX_DEFAULT_PRNG_IMPL': 'rbg'}, 'shard': 1}]}
 ASSUMPTIONS = [
     'inputs are finite float32 with |x| in [1e-25, 1e30] (uniform/binary) or [1e-12, 1e15] (TernGrad/DRIVE, whose '
     'definitions square the input); subnormals and ranges that overflow float32 are not generated (DESIGN A14)',
